@@ -153,7 +153,7 @@ func (c *zzLockedConn) SetWriteDeadline(t time.Time) error { return nil }
 
 // zzC07_locked: every path of response.Write / WriteStream: the transport is only written while the
 // connection's write lock is held, and one critical section carries exactly one whole message
-// (sizes below / above the 1 KiB serialisation pool and the 4 KiB bufio buffer).
+// (sizes below / above / exactly at the 1 KiB serialisation pool and the 4 KiB bufio buffer).
 func zzC07_locked() {
 	d := vAbstractDict()
 	rw := &zzLockedConn{}
@@ -164,7 +164,10 @@ func zzC07_locked() {
 	c, err := srv.newConn(rw)
 	vAssume(err == nil)
 	rw.w = c.writer
-	size := [3]int{8, 1100, 4200}[vChoice("size", vParam("SIZES", 3))]
+	// payload sizes: small, above the serialisation pool, above the bufio buffer, and the serialised
+	// message (28 + payload) landing just below / exactly on / just above each of the two buffer sizes
+	pool, wbuf := MessageBufferLength, c.buf.Writer.Size()
+	size := [9]int{8, 1100, wbuf + 104, pool - 32, pool - 28, pool - 24, wbuf - 32, wbuf - 28, wbuf - 24}[vChoice("size", vParam("SIZES", 9))]
 	var all []byte
 	for i := 0; i < vParam("MSGS", 2); i++ {
 		m := NewMessage(257, 0x80, 0, uint32(i+1), 1, d)
